@@ -182,16 +182,17 @@ func c03(r *hx.Run) {
 	after := []Coord{{1, 1}, {2, 0}, {2, 1}, {3, 0}}
 
 	type phase struct {
-		tag string
-		e   *histEnum
+		tag    string
+		e      *histEnum
+		client *fx.Client // nil: the single-version client
 	}
 	var phases []phase
 	// A: creates are part of the alphabet (no-create, late-create, several creates); depth 3
-	phases = append(phases, phase{"A", &histEnum{pool: pool, alpha: legit, coords: grid4, depth: 3, pubModes: "p"}})
+	phases = append(phases, phase{tag: "A", e: &histEnum{pool: pool, alpha: legit, coords: grid4, depth: 3, pubModes: "p"}})
 	// B: everything incl. forged, create fixed first, depth 2
-	phases = append(phases, phase{"B", &histEnum{pool: pool, alpha: all, coords: after, depth: 2, pubModes: "p", fixed: fixedC}})
+	phases = append(phases, phase{tag: "B", e: &histEnum{pool: pool, alpha: all, coords: after, depth: 2, pubModes: "p", fixed: fixedC}})
 	// C: unpublished operations mixed in, legit alphabet, depth 2
-	phases = append(phases, phase{"C", &histEnum{pool: pool, alpha: legit, coords: grid4, depth: 2, pubModes: "pu"}})
+	phases = append(phases, phase{tag: "C", e: &histEnum{pool: pool, alpha: legit, coords: grid4, depth: 2, pubModes: "pu"}})
 	// D: other base-create variants and key types / hash algorithm, reduced alphabet depth 2 after the create
 	for _, kt := range fx.KeyTypes {
 		for _, code := range []uint{fx.SHA256, fx.SHA512} {
@@ -212,28 +213,44 @@ func c03(r *hx.Run) {
 						al = []string{"U01", "U01b", "U12", "U01~w", "U01~p", "R01", "R12", "R01~h", "D0", "D1", "V01", "Fc(U01)", "Fc(R01)", "Fa(D0)"}
 					}
 				}
-				phases = append(phases, phase{fmt.Sprintf("D[%s/%d/%s]", kt, code, variant),
-					&histEnum{pool: pl, alpha: al, coords: after, depth: depth, pubModes: "p",
+				phases = append(phases, phase{tag: fmt.Sprintf("D[%s/%d/%s]", kt, code, variant),
+					e: &histEnum{pool: pl, alpha: al, coords: after, depth: depth, pubModes: "p",
 						fixed: []fx.Placed{{Op: pl.Get("C"), Time: 1, Num: 0, Published: true}}}})
 			}
 		}
 	}
+	// V: two protocol versions. Every operation carries protocol version 0 (the version it was batched under) although a
+	// second version, under whose rules none of the pool's operations is valid (other hash / signature / key algorithms, tiny
+	// size limits), is in force from time 2 on: an anchored operation is interpreted under its own version, not under the
+	// version of its anchoring time.
+	{
+		twoVer := hostileSecondVersion(v, 2)
+		depthV := 2
+		if r.Tier == "thorough" {
+			depthV = 3
+		}
+		phases = append(phases, phase{"V", &histEnum{pool: pool, alpha: legit, coords: after, depth: depthV, pubModes: "p", fixed: fixedC}, twoVer})
+	}
 	if r.Tier == "thorough" {
 		// E: everything incl. forged at depth 3 after the create
-		phases = append(phases, phase{"E", &histEnum{pool: pool, alpha: all, coords: after, depth: 3, pubModes: "p", fixed: fixedC}})
+		phases = append(phases, phase{tag: "E", e: &histEnum{pool: pool, alpha: all, coords: after, depth: 3, pubModes: "p", fixed: fixedC}})
 		// F: depth 4 over the chain-building sub-alphabets, 5 coordinates
 		upd := []string{"C", "C~h", "U01", "U01b", "U12", "U23", "U1b2", "U01~p", "U01~w", "U01~h", "U01~v", "U10", "U20", "U00"}
 		full := []string{"C", "R01", "R01b", "R12", "R1b2", "R01~h", "R01~a", "R01~w", "R10", "R20", "D0", "D1", "D2", "V01", "W01", "U01"}
-		phases = append(phases, phase{"F1", &histEnum{pool: pool, alpha: upd, coords: grid5, depth: 4, pubModes: "p"}})
-		phases = append(phases, phase{"F2", &histEnum{pool: pool, alpha: full, coords: grid5, depth: 4, pubModes: "p"}})
-		phases = append(phases, phase{"G", &histEnum{pool: pool, alpha: legit, coords: grid4, depth: 3, pubModes: "pu"}})
+		phases = append(phases, phase{tag: "F1", e: &histEnum{pool: pool, alpha: upd, coords: grid5, depth: 4, pubModes: "p"}})
+		phases = append(phases, phase{tag: "F2", e: &histEnum{pool: pool, alpha: full, coords: grid5, depth: 4, pubModes: "p"}})
+		phases = append(phases, phase{tag: "G", e: &histEnum{pool: pool, alpha: legit, coords: grid4, depth: 3, pubModes: "pu"}})
 	}
 	planned := map[string]int64{}
 	for _, ph := range phases {
 		planned[ph.tag] = ph.e.count()
 		ph := ph
 		ph.e.run(r, func(placed []fx.Placed) {
-			compareWithModel(r, ph.tag, client, ph.e.pool, placed, delta)
+			cl := client
+			if ph.client != nil {
+				cl = ph.client
+			}
+			compareWithModel(r, ph.tag, cl, ph.e.pool, placed, delta)
 		})
 	}
 	r.Extra["phases_planned_histories"] = planned
